@@ -100,9 +100,9 @@ def body_eval(env):
         env.ge('flow split conserves mass (1e-9 relative), lo', tot - Ab, -1e-9 * Ab, key='mass_not_conserved')
         ff = r.coolant_int_params['ff']
         env.gt('bundle friction factor positive', ff if not hasattr(ff, '__len__') else ff[0] if len(np.shape(ff)) else ff, 0.0,
-               core=not isinstance(ff, Sym))
-        env.ge('eddy diffusivity >= 0', r.coolant_int_params['eddy'], 0.0, core=not isinstance(r.coolant_int_params['eddy'], Sym))
-        env.ge('swirl velocity >= 0', r.coolant_int_params['swirl'][1], 0.0, core=not isinstance(r.coolant_int_params['swirl'][1], Sym))
+               core=not isinstance(ff, Sym), key='nonfinite_correlation')
+        env.ge('eddy diffusivity >= 0', r.coolant_int_params['eddy'], 0.0, core=not isinstance(r.coolant_int_params['eddy'], Sym), key='negative_or_nonfinite_mixing')
+        env.ge('swirl velocity >= 0', r.coolant_int_params['swirl'][1], 0.0, core=not isinstance(r.coolant_int_params['swirl'][1], Sym), key='negative_or_nonfinite_mixing')
         env.eq('swirl velocity equal for edge and corner cells', r.coolant_int_params['swirl'][1], r.coolant_int_params['swirl'][2])
         # finiteness: every logarithm / non-integer power evaluated on this path got an argument inside its domain
         # (replay: the correlated parameters are finite numbers)
@@ -124,6 +124,51 @@ def body_eval(env):
             fin = bool(all(np.all(np.isfinite(v)) for v in vals))
             env.holds(nm, fin, key='nonfinite_correlation', core=combo[0] not in ('CTD', 'UCTD'))
             env.holds(nm2, fin, key='nonfinite_correlation', core=False)
+
+
+def body_mixing(env):
+    """The mixing correlation called on its own (the way _update_coolant_int_params calls it) with a symbolic bundle Reynolds
+    number: dimensionless eddy diffusivity and swirl velocity are non-negative and every logarithm / non-integer power it
+    evaluates is inside its domain.  The flow-split iteration is not on this path, so the fork budget reaches every regime
+    branch of the mixing correlation (incl. the clipping of the subchannel intermittency factors)."""
+    combo = env.params['combo']
+    n = env.params['n_ring']
+    core.FEAS_TIMEOUT_MS = 1500
+    with env.patch(MODS):
+        r = _region(n, combo, False)
+        G = r.int_flow_rate / r.bundle_params['area'] * r.bundle_params['de']
+        Re = env.real('Re', lo=10.0, hi=1.0e6, nominal=2000.0)
+        r.coolant_int_params['Re'] = Re
+        # subchannel Reynolds numbers Re x_i De_i / De with the split factors x_i anywhere between their laminar and turbulent
+        # constants (where the transition split lies: tests/test_correlations.py::test_ctd_transition_flowsplit)
+        cc = r.corr_constants.get('fs') or {}
+        if isinstance(cc.get('fs'), dict) and 'laminar' in cc['fs']:
+            lo_ = np.minimum(np.asarray(cc['fs']['laminar'], dtype=float), np.asarray(cc['fs']['turbulent'], dtype=float))
+            hi_ = np.maximum(np.asarray(cc['fs']['laminar'], dtype=float), np.asarray(cc['fs']['turbulent'], dtype=float))
+        else:
+            lo_, hi_ = np.full(3, 0.5), np.full(3, 1.5)
+        x = [env.real('split%d' % i, lo=float(lo_[i]) * 0.999999, hi=float(hi_[i]) * 1.000001, nominal=float(0.5 * (lo_[i] + hi_[i]))) for i in range(3)]
+        env.assumption('subchannel flow split factors between their laminar and turbulent constants')
+        de = np.asarray(r.params['de'], dtype=float) / float(r.bundle_params['de'])
+        resc = np.empty(3, dtype=object)
+        for i in range(3):
+            resc[i] = Re * x[i] * float(de[i])
+        r.coolant_int_params['Re_sc'] = resc.astype(float) if env.mode == 'replay' else resc
+        r.coolant_int_params['vel'] = 1.0
+        try:
+            mix = r.corr['mix'](r)
+        except (KeyError, IndexError, TypeError, AttributeError, ZeroDivisionError, ValueError) as ex:
+            env.fail('the mixing correlation can be evaluated in every regime', why=repr(ex)[:160], key='mixing_raises')
+            env.stop()
+        env.ge('dimensionless eddy diffusivity >= 0', mix[0], 0.0, core=not isinstance(mix[0], Sym), key='negative_or_nonfinite_mixing')
+        env.ge('dimensionless swirl velocity >= 0', mix[1], 0.0, core=not isinstance(mix[1], Sym), key='negative_or_nonfinite_mixing')
+        nm = 'mixing parameters are finite: every logarithm and non-integer power got an argument inside its domain'
+        if env.mode == 'sym':
+            import z3 as _z3
+            dom = [c for (_f, c) in core.CTX.domain]
+            env.holds(nm, core.SymBool(_z3.And(*dom)) if dom else True, key='negative_or_nonfinite_mixing')
+        else:
+            env.holds(nm, bool(np.isfinite(float(mix[0])) and np.isfinite(float(mix[1]))), key='negative_or_nonfinite_mixing')
 
 
 def body_iterate(env):
@@ -209,6 +254,10 @@ def instances(tier):
             heavy = c[0] in ('CTD', 'UCTD')
             inst.append(dict(label='eval[fs=%s,ff=%s,mix=%s,rings=%d]' % (c + (n,)), body=body_eval, params={'combo': c, 'n_ring': n},
                              max_paths=400, max_depth=(6 if heavy else 10) if tier == 'quick' else (8 if heavy else 16), timeout_ms=15000))
+    for c in (('CTD', 'CTD', 'CTD'), ('UCTD', 'UCTD', 'UCTD'), ('MIT', 'ENG', 'MIT')):
+        for n in ((2, 3) if tier == 'quick' else (2, 3, 5, 9)):
+            inst.append(dict(label='mixing[fs=%s,ff=%s,mix=%s,rings=%d]' % (c + (n,)), body=body_mixing, params={'combo': c, 'n_ring': n},
+                             max_paths=200, max_depth=30, timeout_ms=15000))
     for fs in ('CTD', 'UCTD'):
         for n in ((2, 3, 5) if tier == 'quick' else (2, 3, 4, 5, 7, 9, 12)):
             inst.append(dict(label='ct-gradient[fs=%s,rings=%d]' % (fs, n), body=body_gradient, params={'fs': fs, 'n_ring': n}, check_vacuity=False))
